@@ -13,6 +13,8 @@ from . import common, grammar_cfgs
 from .common import log
 
 EXE = "pvh_grammar"
+SCALE = [130, 270, 1100]           # past 2^7, 2^8 and 2^10 repetitions (the XML dump recurses per list item: known finding from ~15000)
+SCALED_PER_FOCUS = 8
 FOCI = ["decls", "loose", "types", "flat", "nest", "exprs", "ops", "lists", "commas", "args", "conds", "casts", "elseif", "steps", "long", "strings", "longstr", "atoms", "undoc", "fields"]
 # foci that derive forms the documents do not show (generation 1 accepts them): rejection by generation 2 is not a
 # violation there, a crash or a wrong tree is.  (`loose` -- the last struct member without its comma -- is NOT among them:
@@ -198,6 +200,7 @@ def spec_stamp():
     for f in sorted(glob.glob(os.path.join(common.SPEC, "PenneAst.tla")) + glob.glob(os.path.join(common.SPEC, "PenneGrammar.tla"))
                     + glob.glob(os.path.join(common.SPEC, "MC_PenneGrammar*"))):
         h.update(open(f, "rb").read())
+    h.update(repr((SCALE, SCALED_PER_FOCUS)).encode())
     return h.hexdigest()[:16]
 
 
@@ -323,6 +326,34 @@ def derive(tier, workers=4, parallel=3, use_cache=True):
             log("[tlc] focus %-6s %8d states, %8d modules derived, %.1fs" % (focus, r["states"], n, r["wall"]))
     if count == 0:
         raise common.ToolError("TLC derived no module")
+    # ---- the scaled family ------------------------------------------------------------------------------------------
+    # A module is a SEQUENCE of declarations (PenneGrammar.tla, P_Module: Module ::= Decl*), so the token list of r copies
+    # of a derived module denotes r copies of its declaration list: Tree(toks^r) = Tree(toks)^r.  A sample of the derived
+    # modules of every focus is repeated SCALE times: whatever a front end counts per module (calls, literals, nodes,
+    # nesting that is entered and left again) must not add up over declarations that have nothing to do with each other.
+    n_scaled = 0
+    with open(cases_path) as f:
+        lines = f.readlines()
+    by_focus = {}
+    for ln in lines:
+        c = json.loads(ln)
+        by_focus.setdefault(c["focus"], []).append(c)
+    with open(cases_path, "a") as out:
+        for focus in FOCI:
+            if focus in UNCONSTRAINED:
+                continue
+            cs = [c for c in by_focus.get(focus, []) if 6 <= len(c["toks"]) <= 60]
+            cs.sort(key=lambda c: (-c["n"], c["id"]))
+            picked = cs[:SCALED_PER_FOCUS // 2] + cs[len(cs) // 2:len(cs) // 2 + SCALED_PER_FOCUS // 2]
+            for k, c in enumerate(picked):
+                r = SCALE[k % len(SCALE)]
+                out.write(json.dumps({"id": count, "focus": "scaled", "of": focus, "times": r, "toks": c["toks"] * r,
+                                      "tree": {"decls": c["tree"]["decls"] * r}, "n": c["n"] * r}, separators=(",", ":")))
+                out.write("\n")
+                count += 1
+                n_scaled += 1
+    per_focus["scaled"] = {"states": 0, "transitions": 0, "cases": n_scaled, "wall": 0}
+    log("[tlc] scaled family: %d derived modules repeated %s times" % (n_scaled, "/".join(str(x) for x in SCALE)))
     d = {"stamp": stamp, "cases_path": cases_path, "cases_bytes": os.path.getsize(cases_path), "count": count, "states": states,
          "transitions": transitions, "coverage": coverage, "per_focus": per_focus, "wall": round(time.time() - t0, 1)}
     json.dump(d, open(cache, "w"))
